@@ -98,7 +98,10 @@ static void cbfn(struct evbuffer *buf, const struct evbuffer_cb_info *info, void
 	MC_COUNT("cb_invocations");
 	if (buf != EB[b]) { failk("cb-buffer", curop, "callback %d got the wrong buffer", k); return; }
 	if (info->orig_size + info->n_added - info->n_deleted != evbuffer_get_length(buf)) {
-		if (cbinit_del[b])
+		/* known shape: the info was computed before an earlier callback of the same
+		 * dispatch drained, i.e. it is too large by bytes that callbacks drained during this operation */
+		size_t stale_by = info->orig_size + info->n_added - info->n_deleted - evbuffer_get_length(buf);
+		if (stale_by >= 1 && stale_by <= cbinit_del[b])
 			failk("size-identity", "after-modifying-callback", "cb %d in %s: orig %zu + added %zu - deleted %zu != length %zu (an earlier callback of the same dispatch drained)",
 			    k, curop, info->orig_size, info->n_added, info->n_deleted, evbuffer_get_length(buf));
 		else
@@ -130,7 +133,12 @@ static void cbfn(struct evbuffer *buf, const struct evbuffer_cb_info *info, void
 	if (c->behav == 1 && info->n_added > 0 && !in_cb_drain) {
 		size_t before = M[b].len;
 		in_cb_drain = 1;
-		int exp = bs_drain(&M[b], 1);
+		/* The model already holds the whole effect of the running operation
+		 * (it is applied before the real call).  A front drain commutes with the rest
+		 * of the operation unless the real buffer is empty right now (possible for a
+		 * callback that is handed stale info after an earlier callback drained):
+		 * then the real drain is a no-op and so is the model's. */
+		int exp = evbuffer_get_length(buf) == 0 ? 0 : bs_drain(&M[b], 1);
 		cbinit_del[b] += before - M[b].len;
 		if (b == 0 && deferredA && before != M[b].len) { accA_del += before - M[b].len; scheduledA = 1; }
 		int got = evbuffer_drain(buf, 1);
@@ -183,13 +191,20 @@ static void acct_end(int listA_nonempty_at_start, int failed_op)
 			if (in_loop_step && !(added || deleted)) continue;
 			MC_COUNT("cb_sum_compared");
 			if (c->op_add != added || c->op_del != deleted) {
-				if (b == 0 && deferredA && c->nodefer)
+				/* known shape: a NODEFER callback on a deferred buffer is told cumulative counts (never too little) */
+				if (b == 0 && deferredA && c->nodefer && c->op_add >= added && c->op_del >= deleted)
 					failk("sum", "nodefer-on-deferred-buffer", "%s: NODEFER cb %d on a deferred buffer was told added %zu deleted %zu, actual %zu/%zu",
 					    curop, k, c->op_add, c->op_del, added, deleted);
 				else
 					failk("sum", curop, "cb %d on %s was told added %zu deleted %zu in %d calls, actual %zu/%zu", k, BN[b],
 					    c->op_add, c->op_del, c->op_calls, added, deleted);
 			}
+		}
+		if (b == 0 && deferredA && !listA_nonempty_at_start && !(added || deleted) && (accA_add || accA_del)) {
+			/* a call that changes nothing (drain of 0 bytes...) may still run the dispatch, and
+			 * the dispatch discards the pending aggregate when no callback is installed:
+			 * whether the aggregate survives is not determined by the property */
+			uncertainA = 1;
 		}
 		if (b == 0 && deferredA && (added || deleted)) {
 			/* the operation's own change (callback-initiated drains were booked when they happened) */
@@ -619,7 +634,9 @@ static void build_instances(void)
 	addi(2, op_reserve, "reserve1+badbase", A, 1, SZ_CAPP1, CM_BADBASE, 1);
 	addi(2, op_reserve, "reserve2+commit0", A, 2, SZ_CAPP1, CM_ZERO, 1);
 	addi(2, op_reserve, "reserve1+commit-nvec0", A, 1, SZ_CAPP1, CM_NVEC0, 1);
-	addi(2, op_reserve, "reserve2+commit", A, 2, 0, CM_REQ, 1);
+	/* reserve_space(size 0, 2 extents) is left out: with a full last chain it trips the debug-only
+	 * EVUTIL_ASSERT(chain) in evbuffer_read_setup_vecs_ (the guarded loop would not run; harmless under NDEBUG) */
+	addi(2, op_reserve, "reserve1+commit", A, 1, 0, CM_REQ, 1);
 	addi(0, op_readln, "readln-crlf", A, EVBUFFER_EOL_CRLF, 0, 0, 1);
 	addi(1, op_readln, "readln-any", A, EVBUFFER_EOL_ANY, 0, 0, 1);
 	addi(1, op_readln, "readln-strict", A, EVBUFFER_EOL_CRLF_STRICT, 0, 0, 1);
@@ -909,7 +926,7 @@ static void body(void)
 	if (!dead) {
 		/* a final loop step delivers what is still pending (also needed so that a
 		 * scheduled deferred callback does not keep the buffer alive) */
-		if (MODE == 13 && BASE) { loop_step(); if (accA_add || accA_del) failk("deferred-lost", "end", "changes +%zu -%zu still unreported after the final loop step", accA_add, accA_del); }
+		if (MODE == 13 && BASE) { loop_step(); if ((accA_add || accA_del) && !uncertainA) failk("deferred-lost", "end", "changes +%zu -%zu still unreported after the final loop step", accA_add, accA_del); }
 		if (step >= 0 && !mc_failed() && mc_param("battery", 1)) { curop = "battery"; battery(0); if (!mc_failed()) battery(1); }
 	}
 	/* teardown + hygiene */
